@@ -17,14 +17,6 @@ open Spec
 
 /-! ### ACF-CAN listener -/
 
-theorem read_congr (m₁ m₂ : Mem) (a n : Nat) (h : ∀ x, a ≤ x → x < a + n → m₁ x = m₂ x) :
-    Mem.read m₁ a n = Mem.read m₂ a n := by
-  induction n generalizing a with
-  | zero => rfl
-  | succ n ih =>
-    simp only [Mem.read]
-    rw [h a (Nat.le_refl _) (by omega), ih (a + 1) (fun x h1 h2 => h x (by omega) (by omega))]
-
 theorem acfCommon_disjoint : fieldsDisjoint Spec.acfCommon = true := by decide
 theorem commonHeader_disjoint : fieldsDisjoint Spec.commonHeader = true := by decide
 
